@@ -24,6 +24,12 @@ using Dyn = pgm::DynamicPGMIndex<DK, DV, PGMT>;
 struct pgm_verif_access {
     struct PA : PGMT { using PGMT::n; using PGMT::first_key; using PGMT::segments; };
     // C15: returns a bit mask of violated invariants (0 = all hold)
+    static size_t tail_empty(const Dyn &d, size_t from) {
+        size_t bad = 0;
+        for (size_t j = from; j < d.levels.size(); ++j)
+            if (!d.levels[j].empty()) bad |= 4;
+        return bad;
+    }
     static size_t invariants(const Dyn &d) {
         size_t bad = 0;
         size_t nlev = d.levels.size();
@@ -31,10 +37,8 @@ struct pgm_verif_access {
         for (size_t j = 0; j < nlev; ++j) {
             uint8_t lv = uint8_t(d.min_level + j);
             const auto &L = d.levels[j];
-            if (j >= INV_DETAIL_LEVELS) {   // levels no history inside the bounds can reach: they must simply be empty
-                if (!L.empty()) bad |= 4;
-                continue;
-            }
+            if (j >= INV_DETAIL_LEVELS)     // levels no history inside the bounds can reach: they must simply be empty
+                return bad | tail_empty(d, j);
             for (size_t t = 1; t < L.size(); ++t)
                 if (!(L[t - 1].first < L[t].first)) bad |= 1;                       // strictly sorted by key
             size_t cap = lv == d.min_level ? d.buffer_max_size : d.max_size(lv);
